@@ -209,9 +209,39 @@ class _Nulls(object):
         return _Nulls(self.m, self.col, not self.inverted)
 
 
+class _DType(object):
+    """what the code under test can ask a column's dtype for"""
+    NAMES = {'O': 'object', 'f': 'float64', 'i': 'Int64', 'u': 'UInt32', 'M': 'datetime64[ns]', 'S': 'string'}
+
+    def __init__(self, kind):
+        self.kind = 'O' if kind == 'S' else kind
+        self.name = self.NAMES[kind]
+
+    def __str__(self):
+        return self.name
+
+    def __eq__(self, o):
+        return o is self or o == self.name or (self.name == 'object' and o is object)
+
+    def __ne__(self, o):
+        return not self.__eq__(o)
+
+    def __hash__(self):
+        return hash(self.name)
+
+
 class _Col(object):
-    def __init__(self, u, m):
-        self.u, self.m = u, m
+    def __init__(self, u, m, kind='O'):
+        self.u, self.m, self.kind = u, m, kind
+        self.dtype = _DType(kind)
+
+    def as_python_set(self):
+        """set(column) / iteration: pandas yields a fresh float NaN object per missing cell of a
+        float column (all different set elements); None / NaT / NA are singletons"""
+        present = BVInt(z3.If(z3.UGT(self.m.t, ZERO), self.u.t - ONE, self.u.t))
+        if self.kind == 'f':
+            return _Unique(BVInt(present.t + self.m.t))
+        return _Unique(self.u)
 
     def unique(self):
         return _Unique(self.u)
@@ -238,22 +268,23 @@ class _Col(object):
         column[isnull] -> only the missing values"""
         if isinstance(mask, _Nulls) and mask.col is self:
             if mask.inverted:
-                return _Col(self.nunique(True), BVInt(ZERO))
-            return _Col(BVInt(z3.If(z3.UGT(self.m.t, ZERO), ONE, ZERO)), self.m)
+                return _Col(self.nunique(True), BVInt(ZERO), self.kind)
+            return _Col(BVInt(z3.If(z3.UGT(self.m.t, ZERO), ONE, ZERO)), self.m, self.kind)
         raise KeyError(mask)
 
 
 class ProfTable(pdmodel.FakeFrame):
     """A frame of which only the counts are known."""
 
-    def __init__(self, cols, n, counts):
+    def __init__(self, cols, n, counts, kinds=None):
         pdmodel.FakeFrame.__init__(self, [], columns=cols)
         self.n = n
         self.counts = counts
+        self.kinds = kinds or {}
 
     def __getitem__(self, key):
         if isinstance(key, str) and key in self.counts:
-            return _Col(*self.counts[key])
+            return _Col(*self.counts[key], kind=self.kinds.get(key, 'O'))
         raise KeyError(key)
 
 
@@ -271,6 +302,23 @@ def sym_sum(x, *a):
             raise TypeError('sum of an inverted mask is not modelled')
         return x.m
     return sum(x, *a)
+
+
+def sym_set(x=()):
+    if isinstance(x, _Col):
+        return x.as_python_set()
+    return set(x)
+
+
+def _bool_choice(c, name, options):
+    options = list(options)
+    while len(options) > 1:
+        half = len(options) // 2
+        if bool(c.bool_var(name)):
+            options = options[:half]
+        else:
+            options = options[half:]
+    return options[0]
 
 
 def sym_max(*a):
@@ -318,7 +366,11 @@ def make(cfg):
                              z3.ULE(dist_nm, nm),
                              z3.If(z3.UGT(nm, ZERO), z3.UGE(dist_nm, ONE), dist_nm == ZERO)))
             counts[a] = (u, m)
-        table = ProfTable(attrs, n, counts)
+        kinds = {}
+        if cfg.get('kinds'):
+            for a in attrs:
+                kinds[a] = _bool_choice(c, 'kind_' + a, cfg['kinds'])
+        table = ProfTable(attrs, n, counts, kinds)
         pa = profile_attrs[int(c.int_var('pa', 0, len(profile_attrs) - 1))] if len(profile_attrs) > 1 \
             else profile_attrs[0]
         want_attrs = list(attrs) if pa is None else list(pa)
@@ -326,7 +378,7 @@ def make(cfg):
         b.update({('profiler.profiler', 'pd'): _PdProf, ('profiler.profiler', 'len'): sym_len,
                   ('profiler.profiler', 'sum'): sym_sum, ('profiler.profiler', 'float'): as_float,
                   ('profiler.profiler', 'round'): sym_round, ('profiler.profiler', 'max'): sym_max,
-                  ('profiler.profiler', 'str'): sym_str})
+                  ('profiler.profiler', 'str'): sym_str, ('profiler.profiler', 'set'): sym_set})
         fp.begin_side()
         real_fmt = prof._format_statistic
         seen_fmt = []
@@ -346,7 +398,7 @@ def make(cfg):
                 return {'prop': 'C17', 'clause': clause, 'msg': msg, 'harness': 'h_prof',
                         'site': 'profile_table_for_join',
                         'n': val(n), 'attr': a, 'u': val(counts[a][0]), 'm': val(counts[a][1]),
-                        'profile_attrs': pa}
+                        'profile_attrs': pa, 'kind': kinds.get(a, 'O')}
             return mk
         with repo.patched(b):
             try:
